@@ -153,6 +153,11 @@ def prune(ctx, navis, rng, vol, world, desc):
     cn = F.gen_connectors(rng, f, 8)
     sk = F.mk_neuron(f, connectors=cn)
     dp = navis.Dotprops(world.copy(), k=None, vect=np.tile([1.0, 0, 0], (len(world), 1)))
+    # connectors of the dotprops: each sits next to one point (distinct points), so it belongs to the part that keeps that point
+    kcn = min(6, len(world))
+    cpt = rng.choice(len(world), size=kcn, replace=False)
+    dcn = pd.DataFrame({'connector_id': np.arange(kcn) + 700, 'x': world[cpt, 0] + 1e-4, 'y': world[cpt, 1], 'z': world[cpt, 2], 'type': [0, 1] * (kcn // 2) + [0] * (kcn % 2)})
+    dp.connectors = dcn.copy()
     for name, x, ids in (('skeleton', sk, lambda n: sorted(int(i) for i in n.nodes.node_id.values)),
                          ('dotprops', dp, lambda n: sorted(map(tuple, np.round(np.asarray(n.points), 9).tolist())))):
         st1, a = guarded(navis.in_volume, x, vol, mode='IN', inplace=False)
@@ -166,6 +171,31 @@ def prune(ctx, navis, rng, vol, world, desc):
         ia, ib, full = ids(a), ids(b), ids(x)
         if sorted(ia + ib) != full or set(map(str, ia)) & set(map(str, ib)):
             ctx.violation('pruning with mode IN and OUT does not partition the nodes / points', d, dict(n_in=len(ia), n_out=len(ib), n=len(full)))
+        if name == 'dotprops':
+            def key(n):
+                if n.connectors is None or not len(n.connectors):
+                    return {}
+                if 'point' in n.connectors.columns:       # the link navis keeps (set when the neuron was subset)
+                    link = [int(p_) if p_ == p_ else -1 for p_ in n.connectors.point.values]
+                else:                                     # never subset: a connector sits on its nearest point
+                    link = [int(i_) for i_ in np.atleast_1d(n.snap(n.connectors[['x', 'y', 'z']].values)[0])]
+                if any(not 0 <= p_ < len(n.points) for p_ in link):
+                    return dict(bad_links=link, n_points=len(n.points))
+                return {int(c): tuple(np.round(np.asarray(n.points)[p_], 9)) for c, p_ in zip(n.connectors.connector_id.values, link)}
+            own = {int(c): tuple(np.round(world[int(i)], 9)) for c, i in zip(dcn.connector_id.values, cpt)}
+            for part, partname, keep in ((a, 'IN', set(ia)), (b, 'OUT', set(ib))):
+                want = {c: q_ for c, q_ in own.items() if q_ in keep}
+                got = key(part)
+                if got != want:
+                    ctx.violation('pruned dotprops do not carry exactly their own connectors, attached to their own points', dict(d, part=partname),
+                                  dict(got=str(got)[:300], want=str(want)[:300]))
+                    break
+                # pruning the part again with the same volume and mode changes nothing, connectors included
+                st3, again = guarded(navis.in_volume, part, vol, mode=partname, inplace=False)
+                if st3 != 'ok' or ids(again) != ids(part) or key(again) != want:
+                    ctx.violation('pruning an already pruned dotprops again (same volume, same mode) changes its points / connectors', dict(d, part=partname),
+                                  again if st3 != 'ok' else dict(got=str(key(again))[:300], want=str(want)[:300]))
+                    break
         if name == 'skeleton' and cn is not None:
             ca = sorted(int(c) for c in a.connectors.connector_id.values) if a.connectors is not None else []
             cb = sorted(int(c) for c in b.connectors.connector_id.values) if b.connectors is not None else []
@@ -259,10 +289,27 @@ def snap(ctx, navis, rng):
         verts = rng.integers(-9, 10, size=(9, 3)).astype(float)
         me = navis.MeshNeuron((verts, np.array([[0, 1, 2], [2, 3, 4], [4, 5, 6], [6, 7, 8]])))
         dp = navis.Dotprops(rng.integers(-9, 10, size=(10, 3)).astype(float), k=None, vect=np.tile([1.0, 0, 0], (10, 1)))
-        q = rng.integers(-12, 13, size=3).astype(float) + (0.5 if rng.random() < 0.5 else 0.0)
+        qmode = int(rng.integers(3))
+        q = rng.integers(-12, 13, size=3).astype(float) + (0.5 if qmode == 1 else 0.0)
+        if qmode == 2:
+            q = np.round(rng.uniform(-12, 12, size=3), 3)       # off-lattice queries
+        # point clouds as users have them: float64, float32 (what make_dotprops produces) and integer voxel coordinates
+        pts_i = rng.integers(-9, 10, size=(10, 3))
+        dp32 = navis.Dotprops(pts_i.astype(np.float32) + np.float32(0.25), k=None, vect=np.tile([1.0, 0, 0], (10, 1)))
+        dpi = navis.Dotprops(pts_i.astype(np.int64), k=None, vect=np.tile([1.0, 0, 0], (10, 1)))
+        me32 = navis.MeshNeuron((verts.astype(np.float32) + np.float32(0.25), np.array([[0, 1, 2], [2, 3, 4], [4, 5, 6], [6, 7, 8]])))
+        mcn = pd.DataFrame({'connector_id': np.arange(4) + 50, 'x': rng.integers(-9, 10, size=4).astype(float), 'y': rng.integers(-9, 10, size=4).astype(float),
+                            'z': rng.integers(-9, 10, size=4).astype(float), 'type': [0, 1, 0, 1]})
+        me.connectors = mcn.copy()
+        dp.connectors = mcn.copy()
         targets = [('skeleton-nodes', lambda: sk.snap(q, to='nodes'), sk.nodes[['x', 'y', 'z']].values, [int(i) for i in sk.nodes.node_id.values]),
                    ('mesh-vertices', lambda: me.snap(q), np.asarray(me.vertices), list(range(len(me.vertices)))),
-                   ('dotprops-points', lambda: dp.snap(q), np.asarray(dp.points), list(range(len(dp.points))))]
+                   ('mesh-vertices-f32', lambda: me32.snap(q), np.asarray(me32.vertices), list(range(len(me32.vertices)))),
+                   ('mesh-connectors', lambda: me.snap(q, to='connectors'), mcn[['x', 'y', 'z']].values, list(range(len(mcn)))),
+                   ('dotprops-points', lambda: dp.snap(q), np.asarray(dp.points), list(range(len(dp.points)))),
+                   ('dotprops-points-f32', lambda: dp32.snap(q), np.asarray(dp32.points), list(range(len(dp32.points)))),
+                   ('dotprops-points-int', lambda: dpi.snap(q), np.asarray(dpi.points), list(range(len(dpi.points)))),
+                   ('dotprops-connectors', lambda: dp.snap(q, to='connectors'), mcn[['x', 'y', 'z']].values, list(range(len(mcn))))]
         if cn is not None:
             targets.append(('skeleton-connectors', lambda: sk.snap(q, to='connectors'), cn[['x', 'y', 'z']].values, [int(i) for i in cn.connector_id.values]))
         for name, fn, pts, labels in targets:
